@@ -42,8 +42,30 @@ claim("C18",
  "base64 decoding, encoding/json, PBKDF2/HMAC, smix and the ChaCha20-Poly1305 core are replaced by arbitrary-result models under their documented contracts; SHA256 / Secp256k1Hash are uninterpreted functions. Outside: wallet Lock/Unlock bookkeeping (which fields are removed and restored), rejection of wrong passwords (a cryptographic, probabilistic statement), memory exhaustion through huge scrypt work factors in attacker-supplied metadata.",
  "DESIGN.md §4 C18 (H1-H3 built; H4 pending)")
 
+
+claim("C09",
+ "Bounded symbolic check that Transaction.verify (signed and unsigned mode) returns nil if and only if the documented rule list holds, the rule list being written independently in the harness (counts, |sigs| = |in|, pairwise distinct inputs, pairwise distinct outputs, type 0, no zero-coin output, 128-bit output-coin sum fits, Length = 37+12+65s+32i+37o, InnerHash = SHA256 of the independently re-encoded inputs and outputs, signature rules per mode) over transactions with 0..2 signatures x 0..2 inputs x 0..2 outputs and all fields free; plus decode canonicity: every byte string of the listed lengths either fails to decode or re-encodes to the same bytes, with no panic.",
+ "SHA256 is an uninterpreted collision-free function and signature recovery an uninterpreted predicate of (signature, message hash). Outside: counts near the 65535 limit, byte strings longer than 220 bytes.",
+ "DESIGN.md §4 C09")
+
+claim("C15",
+ "Bounded symbolic check of base58 and address encodings: base58.Encode equals the big-integer definition (one '1' per leading zero byte then the base-58 digits) and Decode inverts it for every byte string of 0..2 (thorough 0..3) bytes; base58.Decode accepts exactly the non-empty strings over the alphabet for every string of 0..2 (thorough 0..4) free bytes (incl. non-ASCII) and its result re-encodes to the same text; cipher.AddressFromBytes accepts exactly 25-byte strings with version 0 and checksum = SHA256(key||version)[:4] for every byte string of 0..30 bytes, decoded value and re-encoding exact; DecodeBase58Address only yields canonical version-0 addresses.",
+ "Reduced bounds for base58 (digit extraction by repeated division/multiplication by 58 inside data-dependent loops is a weak solver target): strings at real address length (35 characters / 25 bytes) and the 4->5 character word boundary are outside the quick bound; the composition text -> bytes -> address is argued from the two halves. SHA256 uninterpreted.",
+ "DESIGN.md §4 C15")
+
+
+claim("C04",
+ "Bounded symbolic check of block acceptance: Visor.executeSignedBlock is executed through the real coin.SignedBlock.VerifySignature, Blockchain.ExecuteBlock, processBlock, isGenesisBlock, verifyBlockHeader, processTransactions and verifyUxHash over a fake chain store that records what is handed to AddBlock; the submitted block (every header field, signature, 0..2 transactions) and the head block are free. Whenever the call succeeds, exactly one block was stored, it is the submitted block, the publisher-signature predicate holds on the stored header's hash, seq = head+1, time > head time, PrevHash = hash of head, BodyHash = Merkle root of the stored transactions, UxHash = the node's checksum, it is not the genesis block and it is not empty; whenever it fails, nothing was stored and neither the unconfirmed pool nor the history was touched.",
+ "SHA256 collision free; signature verification is an uninterpreted predicate of (pubkey, sig, header hash); per-transaction rules summarised as an arbitrary verdict; follower (non-arbitrating) mode. Outside: boltdb rollback of a failed Update, the byte-for-byte unchanged state of the buckets after a rejection (only 'no mutating call was made' is shown), arbitrating mode.",
+ "DESIGN.md §4 C04")
+
+claim("C28",
+ "Bounded symbolic no-panic check of the API-facing verification path: Visor.VerifyTxnVerbose is executed for transactions with 0..2 inputs and outputs against fakes of the chain, unspent pool and history returning every documented answer (found / not found / ErrUnspentNotExist / other error / (nil, nil) for unknown transactions / missing previous block); no path ends in a panic and every path returns a verdict.",
+ "Reduced scope: one gateway method; the HTTP layer (net/http, JSON decoding, every other endpoint) and hangs are outside the claim. Store answers follow the documented contracts of Unspents.GetArray, HistoryDB.GetUxOuts/GetTransaction; the transaction rule checks and CoinHours are summarised by arbitrary verdicts.",
+ "DESIGN.md §4 C28 (H1 built)")
+
 _pending = "check not built yet in this revision (work in progress; see DESIGN.md §4)"
-for p in ["C02","C04","C05","C06","C07","C09","C10","C12","C13","C14","C15","C16","C17","C19","C20","C21","C24","C25","C26","C27","C28","C30","C33"]:
+for p in ["C02","C05","C06","C07","C10","C12","C13","C14","C16","C17","C19","C20","C21","C24","C25","C26","C27","C30","C33"]:
     na(p, _pending)
 na("C08", "crash points inside boltdb's mmap/page commit and fsync ordering plus the goroutine/channel WalkChain pipeline cannot be encoded by an SSA->SMT executor (no I/O ordering or scheduling semantics)")
 na("C32", "race freedom and shutdown under all goroutine schedules: the encoder has no thread/channel semantics; the race detector is a dynamic technique outside this family")
